@@ -494,3 +494,68 @@ def var_tested_after(fn, g, node_id, var):
             p = g.path(node_id, b, avoid=readers)
             return False, g.describe(p or [b])
     return True, None
+
+
+# ---------------------------------------------------------------------------
+# reaching definitions / symbolic expansion of local scalars
+# ---------------------------------------------------------------------------
+
+def reaching_defs(fn, g, use_node_id, var):
+    """Right-hand sides of the assignments to local `var` that can reach CFG node use_node_id (initialisers included)."""
+    defs = []
+    for n in g.nodes:
+        if n.ast is None or n.kind not in ("stmt", "cond"):
+            continue
+        for path, node, rhs, kind in stores(n.ast):
+            if path == var and kind == "=" and rhs is not None:
+                defs.append((n.id, rhs))
+        if n.ast.kind == "DeclStmt":
+            for d in n.ast.children:
+                if d.kind == "VarDecl" and d.name == var and d.children and d.children[-1].kind not in ("IntegerLiteral",):
+                    defs.append((n.id, d.children[-1]))
+    ids = [i for i, _ in defs]
+    out = []
+    for i, rhs in defs:
+        others = [x for x in ids if x != i]
+        if use_node_id in g.reach([i], avoid=others) and i != use_node_id:
+            out.append(rhs)
+    return out
+
+
+def expand(fn, g, use_node_id, expr, depth=0, keep=()):
+    """Set of whitespace-free source texts `expr` can stand for at use_node_id after substituting local scalar variables by
+    their reaching definitions (depth-limited)."""
+    import re as _re
+    txt = _re.sub(r"\s", "", expr.src)
+    if depth > 4:
+        return {txt}
+    names = []
+    for x in expr.walk():
+        if x.kind == "DeclRefExpr" and x.refkind == "VarDecl" and x.ref not in names:
+            names.append(x.ref)
+    results = {txt}
+    counters = {p for p, n, rhs, k in stores(fn) if p and k in ("++", "--", "+=", "-=")}
+    for v in names:
+        if v in counters or v in keep:
+            continue  # loop counters (and names the caller wants to keep) stay symbolic
+        rds = reaching_defs(fn, g, use_node_id, v)
+        if not rds:
+            continue
+        new = set()
+        for t in results:
+            for rhs in rds:
+                for sub in expand(fn, g, use_node_id, rhs, depth + 1, keep):
+                    new.add(_re.sub(r"(?<![A-Za-z0-9_>.])%s(?![A-Za-z0-9_])" % _re.escape(v), "(" + sub + ")", t))
+        results = new or results
+    return results
+
+
+def node_of(g, ast_node):
+    best = None
+    for n in g.nodes:
+        if n.ast is None or n.kind not in ("stmt", "cond", "return"):
+            continue
+        if n.ast.begin <= ast_node.begin and ast_node.end <= n.ast.end:
+            if best is None or (n.ast.end - n.ast.begin) < (best.ast.end - best.ast.begin):
+                best = n
+    return best
